@@ -26,7 +26,7 @@ import (
 
 var c19Keep = regexp.MustCompile(`mutex\.(Lock|Unlock)\(\)|pending\.|\bcomplete\(|completed\.|isCompleted\(\)|` +
 	`executeStage\(|completeStage\(|\.Execute\(|NextStages\(\)|recover\(\)|errHandle|completeHandle\(\)|execFn|` +
-	`Submit\(|panicHandle|\.Exec\(\)|if stage\.IsAsync\(\)|execPool != nil|sm\.err|firstError|completedCallbackFn|stage\.Complete\(\)|` +
+	`Submit\(|panicHandle|\.Exec\(\)|if stage\.IsAsync\(\)|execPool != nil|sm\.err|firstError|completedCallbackFn|stage\.Complete\(\)|Complete\(s\.stage\)|` +
 	`stage\.execute\(|sendResponse\(|Stopped\(\)|ctx\.Done\(\)|p\.tasks <-|reject\(|ctx\.Err\(\)|task\.handle == nil`)
 
 // the request level (leaf_processor.go, task_handler.go): who answers a request — every return, every
@@ -122,6 +122,87 @@ func c19PlanNodeReturnsOpErr(fd *ast.FuncDecl) bool {
 	}
 	walk(fd.Body.List, false)
 	return ok
+}
+
+// c19RecoversAndCompletes: the function has a deferred closure calling recover() and calls x.Complete()
+func c19RecoversAndCompletes(fd *ast.FuncDecl) bool {
+	rec, comp := false, false
+	for _, st := range fd.Body.List {
+		if d, ok := st.(*ast.DeferStmt); ok {
+			ast.Inspect(d.Call, func(n ast.Node) bool {
+				if c, ok := n.(*ast.CallExpr); ok {
+					if id, ok := c.Fun.(*ast.Ident); ok && id.Name == "recover" {
+						rec = true
+					}
+				}
+				return true
+			})
+		}
+	}
+	ast.Inspect(fd.Body, func(n ast.Node) bool {
+		if c, ok := n.(*ast.CallExpr); ok {
+			if sel, ok := c.Fun.(*ast.SelectorExpr); ok && sel.Sel.Name == "Complete" {
+				comp = true
+			}
+		}
+		return true
+	})
+	return rec && comp
+}
+
+// c19SendSites lists, for every non-test file of the given directories, the functions that put a
+// TaskResponse on a stream themselves: calls of a method named Send whose argument is a
+// protoCommonV1.TaskResponse literal (or a variable named resp), and calls of the unguarded
+// sendResponse. Format "dir/file.go:Func×n".
+func c19SendSites(repo string, dirs []string) ([]string, error) {
+	var out []string
+	for _, dir := range dirs {
+		ents, err := os.ReadDir(filepath.Join(repo, dir))
+		if err != nil {
+			return nil, err
+		}
+		for _, e := range ents {
+			if !strings.HasSuffix(e.Name(), ".go") || strings.HasSuffix(e.Name(), "_test.go") || strings.HasPrefix(e.Name(), "zz_verif") ||
+				strings.HasSuffix(e.Name(), "_mock.go") {
+				continue
+			}
+			_, f, err := ParseFile(repo, dir+"/"+e.Name())
+			if err != nil {
+				return nil, err
+			}
+			for _, d := range f.Decls {
+				fd, ok := d.(*ast.FuncDecl)
+				if !ok || fd.Body == nil {
+					continue
+				}
+				n := 0
+				ast.Inspect(fd.Body, func(nd ast.Node) bool {
+					call, ok := nd.(*ast.CallExpr)
+					if !ok {
+						return true
+					}
+					sel, ok := call.Fun.(*ast.SelectorExpr)
+					if !ok {
+						return true
+					}
+					switch {
+					case sel.Sel.Name == "sendResponse":
+						n++
+					case sel.Sel.Name == "Send" && len(call.Args) == 1:
+						a := types.ExprString(call.Args[0])
+						if strings.Contains(a, "TaskResponse") || a == "resp" {
+							n++
+						}
+					}
+					return true
+				})
+				if n > 0 {
+					out = append(out, fmt.Sprintf("%s/%s:%s×%d", dir, e.Name(), fd.Name.Name, n))
+				}
+			}
+		}
+	}
+	return out, nil
 }
 
 func c19Steps(body *ast.BlockStmt) []string { return c19StepsKeep(body, c19Keep) }
@@ -294,6 +375,46 @@ func init() {
 		sb.WriteString("/-- `completeStage` hands the remembered first error (not its own `err`) to `complete` -/\n")
 		sb.WriteString("def completePassesFirstError : Bool := " + variant + "\n\n")
 		sb.WriteString("def completeStageSteps : List String := " + LeanStrList(steps) + "\n\n")
+		// the Complete() hook inside the critical section: called directly (a panic of the hook unwinds
+		// completeStage between Lock and the non-deferred Unlock), or through a helper of this file that
+		// calls it under a deferred recover
+		direct, helper := false, ""
+		ast.Inspect(cs.Body, func(n ast.Node) bool {
+			call, ok := n.(*ast.CallExpr)
+			if !ok {
+				return true
+			}
+			switch f := call.Fun.(type) {
+			case *ast.SelectorExpr:
+				if f.Sel.Name == "Complete" {
+					direct = true
+				}
+			case *ast.Ident:
+				if fd := FindFunc(smf, "", f.Name); fd != nil && fd.Body != nil && c19RecoversAndCompletes(fd) {
+					helper = f.Name
+				}
+			}
+			return true
+		})
+		unlockDeferred := false
+		for _, st := range cs.Body.List {
+			if d, ok := st.(*ast.DeferStmt); ok && strings.HasSuffix(types.ExprString(d.Call.Fun), "mutex.Unlock") {
+				unlockDeferred = true
+			}
+		}
+		var helperSteps []string
+		switch {
+		case direct && !unlockDeferred:
+			sb.WriteString("/-- `completeStage` calls the stage's Complete() hook inside a recover (false: directly, between Lock and the non-deferred Unlock) -/\n")
+			sb.WriteString("def completeHookGuarded : Bool := false\n\n")
+		case !direct && helper != "":
+			sb.WriteString("/-- `completeStage` calls the stage's Complete() hook inside a recover (false: directly, between Lock and the non-deferred Unlock) -/\n")
+			sb.WriteString("def completeHookGuarded : Bool := true\n\n")
+			helperSteps = c19Steps(FindFunc(smf, "", helper).Body)
+		default:
+			return "", fmt.Errorf("completeStage: how the Complete() hook is called is not recognised (direct call %v, deferred Unlock %v, recovering helper %q)", direct, unlockDeferred, helper)
+		}
+		sb.WriteString("def safeCompleteSteps : List String := " + LeanStrList(helperSteps) + "\n\n")
 		for _, fn := range []string{"firstError", "complete", "isCompleted", "executeStage"} {
 			fd := FindFunc(smf, "pipelineStateMachine", fn)
 			var l []string
@@ -473,6 +594,13 @@ func init() {
 		}
 		sb.WriteString("/-- functions of query/context other than SendResponse that call the unguarded sendResponse -/\n")
 		sb.WriteString("def unguardedSendResponseCallers : List String := " + LeanStrList(unguarded) + "\n\n")
+		// every function of the leaf-side query code that puts a response on a stream itself
+		sites, err := c19SendSites(repo, []string{"query", "query/context", "query/stage", "query/operator"})
+		if err != nil {
+			return "", err
+		}
+		sb.WriteString("/-- functions of query/, query/context, query/stage, query/operator that send a TaskResponse themselves (calls of `.Send(<TaskResponse>)` and of the unguarded `sendResponse`, with their number) -/\n")
+		sb.WriteString("def responseSendSites : List String := " + LeanStrList(sites) + "\n\n")
 		// the broker side of a metadata query
 		_, mcf, err := ParseFile(repo, "query/context/metadata_context.go")
 		if err != nil {
